@@ -77,12 +77,14 @@ def dijkstra[S](
         iterations += 1
         closed.add(current)
 
+        # Nodes beyond the cost limit are neither expanded nor accepted as goal: a goal reached through them may have a
+        # cheaper route through a pruned node, so its cost would not be the shortest distance
+        if max_cost is not None and cost > max_cost:
+            continue
+
         if is_goal(current):
             path = reconstruct_path(parent, current)
             return Result(path, g[current], iterations, evaluations)
-
-        if max_cost is not None and cost > max_cost:
-            continue
 
         for neighbor, edge_cost in neighbors(current):
             if neighbor in closed:
